@@ -190,7 +190,11 @@ def mk_term(term, tag):
 
 
 def mk_branch_elements(spec, tag):
-    """spec = {"kind": fc|fr|seq, "muts": [...], "term": ...}"""
+    """spec = {"kind": fc|fr|seq|bare, "muts": [...], "term": ...}"""
+    if spec["kind"] == "bare":
+        # a bare framework accumulator as a branch (it keeps the context of the last value by
+        # reference until compute(), so it shows what happens to the value it was handed)
+        return [NumSum() if spec["term"] == "sum" else Count("bare%d" % tag)]
     els = [mk_mut(m, tag, spec["kind"] == "seq") for m in spec["muts"]]
     if spec["kind"] in ("fc", "fr"):
         els.append(mk_term(spec["term"], tag))
@@ -202,6 +206,8 @@ def mk_branch_elements(spec, tag):
 
 def mk_branch(spec, tag):
     els = mk_branch_elements(spec, tag)
+    if spec["kind"] == "bare":
+        return els[0]
     if spec["kind"] == "seq" and (tag % 2 or any(m[0] == "count" for m in spec["muts"])):
         # a tuple containing Count would be taken for a fill/compute branch
         return Sequence(*els)
@@ -213,8 +219,8 @@ def alone(spec, tag, blocks, driver):
     lists plus the final results."""
     els = mk_branch_elements(spec, tag)
     per_block, final = [], []
-    if spec["kind"] == "fc":
-        seq = FillComputeSeq(*els)
+    if spec["kind"] in ("fc", "bare"):
+        seq = FillComputeSeq(*els) if spec["kind"] == "fc" else els[0]
         stopped = False
         for b in blocks:
             res = []
@@ -291,9 +297,9 @@ def branch_case(draw):
     branches = []
     for i in range(nb):
         if driver == "run":
-            kind = draw(st.sampled_from(["fc", "fc", "fr", "seq", "seq"]))
+            kind = draw(st.sampled_from(["fc", "fc", "fr", "seq", "seq", "bare"]))
         elif driver in ("fill_compute", "zip_fc"):
-            kind = "fc"
+            kind = draw(st.sampled_from(["fc", "fc", "fc", "bare"]))
         else:
             kind = "fr"
         term = None
@@ -301,7 +307,9 @@ def branch_case(draw):
             term = draw(st.sampled_from(["snap", "snap", "store", "sum"]))
         elif kind == "fr":
             term = "snapreq"
-        muts = draw(st.lists(mut_strat, min_size=0, max_size=3))
+        elif kind == "bare":
+            term = draw(st.sampled_from(["sum", "sum", "count"]))
+        muts = draw(st.lists(mut_strat, min_size=0, max_size=3)) if kind != "bare" else []
         if driver == "run" and kind in ("fc", "fr") and draw(st.integers(0, 2)) == 0:
             # the branch stops taking values (LenaStopFill) after k of them
             pos = draw(st.integers(0, len(muts)))
